@@ -232,7 +232,7 @@ func (r *recorder) GC(name string) error {
 func (r *recorder) RemoveInformer(gvk gvkT) error {
 	i := r.call("RemoveInformer", "", []string{gvk.Kind + "." + gvk.Version + "." + gvk.Group}, false)
 	var err error
-	perr := kit.Try(func() { err = r.w.itc.RemoveInformer(bg, kindObject(gvk)) })
+	perr := kit.Try(func() { err = r.w.itc.RemoveInformer(solicited(bg), kindObject(gvk)) })
 	r.ret(i, err, perr)
 	return err
 }
